@@ -4,6 +4,7 @@
 #   clean worktree of /repo HEAD -> demo must pass; apply patch.diff -> pinned suite must pass, demo must fail;
 #   then VERIF_REPO=<that worktree> ./check <Cxx> --tier quick (no evidence written). The worktree is removed at the end.
 S="$1"; shift
+mkdir -p /tmp/r6v
 W=/tmp/r6v/$(basename "$(dirname "$S")")-$$
 export GOPROXY=off GOSUMDB=off GOTOOLCHAIN=local
 git -C /repo worktree add -q "$W" HEAD || exit 2
